@@ -17,6 +17,7 @@ NT     == Len(Traces)
 Ev     == Traces[tid].ev[l]
 ASSUME \A i \in 1..NT : TLCSet(i, 0)
 Chk(name, c) == IF c THEN TRUE ELSE PrintT(<<"MISMATCH", Traces[tid].tid, l, name>>) /\ FALSE
+Note(name, c) == IF c THEN TRUE ELSE PrintT(<<"NOTE", Traces[tid].tid, l, name>>)    \* reported, never blocks the trace
 ToSetOf(s) == {s[k] : k \in DOMAIN s}
 
 TInit == tid \in 1..NT /\ l = 1 /\ Init0([R |-> Traces[tid].R, S |-> Traces[tid].S])
@@ -47,6 +48,14 @@ Post(e) ==
   /\ Chk("SinksView", (products' \ reactants') = ToSetOf(e.post.sinks))
   /\ Chk("Indices", idxs' = e.post.idxs)
   /\ Chk("AllowedList", allowed' = ToSetOf(e.post.allowed))
+  /\ IF "ws" \in DOMAIN e.post                     \* queries asked of the real object in this state (harness/netrec.py, queries=True)
+       THEN /\ \A n \in DOMAIN e.post.ws :
+                 LET q == e.post.ws[n]
+                     ok == q.a = SetToSortSeq(WhereSpeciesIn(rlist', q.c, q.m), <)
+                 IN IF q.m = "all" THEN Chk("WhereSpecies", ok) ELSE Note("WhereSpecies:" \o q.m, ok)
+            /\ \A n \in DOMAIN e.post.wr :
+                 LET q == e.post.wr[n] IN Note("WhereReaction:" \o q.m, q.a = SetToSortSeq(WhereReactionIn(rlist', q.i, q.m), <))
+       ELSE TRUE
   /\ IF e.act = "FindDup"
        THEN /\ Chk("DupReport", report'.dupidx = e.dupidx)
             /\ Chk("DupFirst", [k \in DOMAIN report'.first |-> rlist[report'.first[k]]] = e.first)
@@ -66,6 +75,7 @@ Track ==
   /\ Chk("Inv:NothingLost", NothingLost)
   /\ Chk("Inv:ReportIsDecl", ReportIsDecl)
   /\ Chk("Inv:RemovalSound", RemovalSound)
+  /\ Chk("Inv:QueriesAgreeWithCaches", QueriesAgreeWithCaches)
   /\ TLCSet(tid, IF l > TLCGet(tid) THEN l ELSE TLCGet(tid))   \* progress register: only states that satisfy every invariant count
 
 Verdicts == \A i \in 1..NT : PrintT(<<"VERDICT", Traces[i].tid, TLCGet(i), Len(Traces[i].ev) + 1>>)
